@@ -82,6 +82,8 @@ def run(tier, argv):
     for m in vlib.read_ndjson(rout):
         if m["what"] == "len":
             bad.append({"what": m["want"], "dialect": "regex type", "text": bytes(m["bytes"]).decode("latin-1"), "ok": m["got"].get("ok"), "len": m["got"].get("pos"), "msg": m["got"].get("msg")})
+    for b in semcommon.lex_diff_tier(work, rep, hbin, PROP, 200000 if quick else 20000000):
+        bad.append({"what": b["what"] + " (differs from the frozen copy)", "dialect": "differential", "text": b["text"], "ok": b.get("ok"), "len": b.get("len"), "msg": b.get("msg")})
     by = {}
     for e in lines:
         by[e["dialect"]] = by.get(e["dialect"], 0) + 1
